@@ -1,5 +1,6 @@
 import TPV.Model.Proto
 import TPV.Model.CondWorld
+import TPV.Model.CondWorldShared
 open TPV TPV.Proto TPV.CondExpr TPV.Cond
 
 /-! line protocol of C14: one history per line
@@ -51,6 +52,26 @@ def op : P (Op Rat) := do
   | "e" => do let cid ← nat; let fresh ← table; pure (.eval cid fresh)
   | t => throw s!"op:{t}"
 
+def interval : P (Option Nat) := do
+  let t ← next
+  match t with
+  | "inf" => pure none
+  | t => match t.toNat? with
+    | some k => pure (some k)
+    | none => throw s!"interval:{t}"
+
+/-- operations of a history with shared sampler objects:
+    `m sid static interval` | `c cid dictRef space net resid params err red sid fresh` | `e cid fresh` -/
+def opS : P (OpS Rat) := do
+  match (← next) with
+  | "m" => do let sid ← nat; let st ← bool; let iv ← interval; pure (.mkSampler sid st iv)
+  | "c" => do
+    let cid ← nat; let dref ← nat; let sp ← space; let n ← net; let res ← ufun; let ps ← named
+    let ek ← errKind; let rk ← redKind; let sid ← nat; let fresh ← table
+    pure (.construct cid dref { net := some n, resid := res, dataFns := [], params := ps, err := ek, red := rk } sp sid fresh)
+  | "e" => do let cid ← nat; let fresh ← table; pure (.eval cid fresh)
+  | t => throw s!"opS:{t}"
+
 def showErr : Err → String
   | .missingArg n => s!"err:missing-arg:{n}"
   | .space => "err:space"
@@ -84,6 +105,25 @@ def step (line : String) : String :=
       let res := if mode == "old" then runOld w ops else runNew w ops
       let tags := res.1.dicts.map fun d => " ".intercalate (d.map fun p => p.1 ++ ":" ++ p.2.tag)
       return " ".intercalate (res.2.map fun p => showOut p.2) ++ " | " ++ " ; ".intercalate tags
+    | "runs" => do
+      let dicts ← many (many (do
+        let n ← next
+        let kind ← next
+        let u ← ufun
+        match kind with
+        | "raw" => pure (n, DEntry.raw u)
+        | "wrapped" => pure (n, DEntry.wrapped u)
+        | t => throw s!"entry:{t}"))
+      let ops ← many opS
+      let res := runS (WorldS.init dicts) ops
+      let outs := (res.2.filter fun r => r.cid.isSome).map fun r => showOut r.out
+      -- every condition replayed ALONE on a private sampler that hands it the points it used in company
+      let cids := (ops.filterMap OpS.cid?).eraseDups
+      let alone := cids.map fun cid =>
+        let a := runNew (World.init dicts) (replay cid (samplerDecl ops) ops res.2)
+        toString cid ++ ":" ++ ",".intercalate ((outsOf cid a.2).map showOut)
+      let tags := res.1.dicts.map fun d => " ".intercalate (d.map fun p => p.1 ++ ":" ++ p.2.tag)
+      return " ".intercalate outs ++ " | " ++ " ; ".intercalate tags ++ " | " ++ " ".intercalate alone
     | _ => return "bad-op" : P String).run' (tokens line)
   match r with
   | .ok s => s
